@@ -385,6 +385,14 @@ def exc_type(rep, model):
                 n += 1
                 e = node.exc.func if isinstance(node.exc, ast.Call) else node.exc
                 name = ast.unparse(e) if e is not None else '(re-raise)'
+                if isinstance(node.exc, ast.Call) and isinstance(e, ast.Name):
+                    # raise helper(...): the type is what the helper constructs in each of its returns
+                    r_ = model.resolve(fn.mod, e.id)
+                    if isinstance(r_, str) and r_ in model.funcs:
+                        rets = [x.value for x in ast.walk(model.funcs[r_].node) if isinstance(x, ast.Return)]
+                        kinds = {ast.unparse(x.func) for x in rets if isinstance(x, ast.Call)}
+                        if rets and len(kinds) == 1 and all(isinstance(x, ast.Call) for x in rets):
+                            name = kinds.pop()
                 if name in allowed:
                     rep.ok('EXC-TYPE', f'{fn.name}:{name}', f'{fn.path}:{node.lineno} {fn.name}', found=name, nontrivial=False)
                 else:
